@@ -124,6 +124,15 @@ class TableFilter:
         return bool((self.k >> ((7 * self.ad.lname(link) + code) % 64)) & 1)
 
 
+def plain_filter(ad, k):
+    """filter number k as a PLAIN function without a closure — the loop idiom `lambda e, v, k=k: …`:
+    all such filters share ONE code object and differ only in their default values"""
+    def table_filter(link, x=None, _ad=ad, _k=k):
+        code = 0 if x is None else _ad.vname(x) + 1
+        return bool((_k >> ((7 * _ad.lname(link) + code) % 64)) & 1)
+    return table_filter
+
+
 # argument tuples for the singleton ops: id -> (args, kwargs)
 SARGS = {
     0: ((), {}), 1: ((1,), {}), 2: ((1.0,), {}), 3: ((True,), {}), 4: ((-1,), {}), 5: ((-2,), {}),
@@ -308,7 +317,10 @@ class Real:
             # afterwards, so that its address can be reused by the next one
             return TableFilter(self, k, 2)
         if k not in self.filters2:
-            self.filters2[k] = (FalsyTableFilter if k % 3 == 1 else TableFilter)(self, k, 2)
+            if k % 7 == 3 and self.plain_filters and not self.long_lived_filters:
+                self.filters2[k] = plain_filter(self, k)
+            else:
+                self.filters2[k] = (FalsyTableFilter if k % 3 == 1 else TableFilter)(self, k, 2)
         return self.filters2[k]
 
     def filt1(self, k):
@@ -317,7 +329,10 @@ class Real:
         if k % 5 == 2 and not self.long_lived_filters:
             return TableFilter(self, k, 1)
         if k not in self.filters1:
-            self.filters1[k] = (FalsyTableFilter if k % 3 == 1 else TableFilter)(self, k, 1)
+            if k % 7 == 3 and self.plain_filters and not self.long_lived_filters:
+                self.filters1[k] = plain_filter(self, k)
+            else:
+                self.filters1[k] = (FalsyTableFilter if k % 3 == 1 else TableFilter)(self, k, 1)
         return self.filters1[k]
 
     def hook_of(self, uni):
@@ -576,6 +591,7 @@ class Real:
 
     # -------------------------------------------------------------------- ops
     keep_mode = False
+    plain_filters = False           # filters number k with k % 7 == 3 are plain functions sharing one code object (never in pickled worlds)
     long_lived_filters = False      # C13 injects faults through the filter object: it must be the memo's key
 
     def keep(self, *containers):
@@ -872,16 +888,33 @@ class Real:
             if toks[7] == "gen":
                 fn = {"bft": breadthfirst.ibft, "dftr": depthfirst.idft_recursive,
                       "dfti": depthfirst.idft_iterative}[op]
-                out = []
+                out, twin = [], []
+                cap = 4 * (len(self.V) + 2) + 8
                 try:
                     it = fn(uni, start, **kw)
-                    while True:
+                    # a SECOND generator of the same call is consumed in lock-step with the first
+                    # (`zip(ibft(..), ibft(..))`): traversals in flight must not disturb one another
+                    try:
+                        it2 = fn(uni, start, **kw)
+                    except Exception:  # noqa: BLE001   (eager pre-flight failure: the first one raises it too)
+                        it2 = iter(())
+                    while len(out) <= cap:
                         try:
                             out.append(next(it))
                         except StopIteration:
                             break
+                        try:
+                            twin.append(next(it2))
+                        except StopIteration:
+                            twin.append(StopIteration)
+                        except Exception:  # noqa: BLE001   (the first generator raises at the same point, below)
+                            twin.append(None)
                 except Exception as exc:  # noqa: BLE001
                     return "gen [" + ",".join(self.sv(x) for x in out) + "] err " + errname(exc)
+                if len(out) > cap:
+                    return "gen [" + ",".join(self.sv(x) for x in out[:cap]) + "] lockstep-does-not-terminate"
+                if any(a is not b for a, b in zip(out, twin)):
+                    return "gen [" + ",".join(self.sv(x) for x in out) + "] lockstep-differs"
                 return "gen [" + ",".join(self.sv(x) for x in out) + "] end"
             fn = {"bft": breadthfirst.bft, "dftr": depthfirst.dft_recursive,
                   "dfti": depthfirst.dft_iterative}[op]
